@@ -1,2 +1,827 @@
-//! placeholder until the controller-history check is wired in
-pub fn run_sub(_report: &crate::core::Report) {}
+//! C12b — the built-in congestion controllers never report a window below two datagrams.
+//!
+//! Model-based call histories against `quinn_proto::congestion::{Cubic, NewReno, Bbr}` through the
+//! public `Controller` / `ControllerFactory` traits. The generator keeps the bookkeeping a
+//! connection keeps (outstanding packets per packet-number space with size and send time, a
+//! monotone virtual clock, an RTT estimator fed after each ACK) and emits the calls in the shapes
+//! `quinn-proto/src/connection/mod.rs` produces them:
+//!
+//! * `on_sent(now, bytes_of_batch, last_pn)` once per transmit batch,
+//! * per ACK: `[on_mtu_update]* on_ack` per newly acked packet, `on_end_acks`, then the RTT sample,
+//! * `on_congestion_event(now, sent_of_largest_lost | sent_of_largest_acked, persistent, ecn, lost_bytes)`,
+//! * `on_spurious_congestion_event`, `on_mtu_update` (up and down), `clone_box` (migration).
+//!
+//! Oracle after construction and after EVERY call: `window() >= 2 * mtu` for the MTU most recently
+//! communicated through `build()` / `on_mtu_update()`, `clone_box().window() == window()`,
+//! `initial_window()` equals the configured value, and no panic (overflow panics included).
+
+use crate::core::*;
+use proptest::prelude::*;
+use quinn_proto::congestion::{BbrConfig, Controller, ControllerFactory, CubicConfig, NewRenoConfig};
+use quinn_proto::RttEstimator;
+use serde::{Deserialize, Serialize};
+use serde_json::json;
+use std::cell::Cell;
+use std::collections::BTreeMap;
+use std::sync::{Arc, OnceLock};
+use std::time::{Duration, Instant};
+
+pub const MIN_MTU: u16 = 1200;
+pub const MAX_MTU: u16 = 65527;
+/// Largest construction MTU for which the default Cubic/NewReno initial window (12000) is >= 2 MTU
+pub const MAX_DEFAULT_CTOR_MTU: u16 = 6000;
+const DEFAULT_IW_RENO_CUBIC: u64 = 12_000;
+const DEFAULT_IW_BBR: u64 = 240_000;
+
+#[derive(Debug, Clone, Copy, PartialEq, Eq, Serialize, Deserialize)]
+pub enum Kind {
+    Cubic,
+    NewReno,
+    Bbr,
+}
+
+impl Kind {
+    fn name(self) -> &'static str {
+        match self {
+            Kind::Cubic => "cubic",
+            Kind::NewReno => "newreno",
+            Kind::Bbr => "bbr",
+        }
+    }
+    fn default_iw(self) -> u64 {
+        match self {
+            Kind::Cubic | Kind::NewReno => DEFAULT_IW_RENO_CUBIC,
+            Kind::Bbr => DEFAULT_IW_BBR,
+        }
+    }
+}
+
+/// `initial_window` knob
+#[derive(Debug, Clone, Copy, PartialEq, Eq, Serialize, Deserialize)]
+pub enum Iw {
+    Default,
+    /// exactly 2 * construction MTU (the smallest value inside the domain)
+    TwoMtu,
+    /// 2 * construction MTU + n
+    TwoMtuPlus(u16),
+    /// 10 * construction MTU (the recommended formula's upper arm)
+    TenMtu,
+    /// 2^n bytes, n in 18..=62
+    Pow2(u8),
+}
+
+impl Iw {
+    fn value(self, kind: Kind, mtu0: u16) -> u64 {
+        match self {
+            Iw::Default => kind.default_iw(),
+            Iw::TwoMtu => 2 * mtu0 as u64,
+            Iw::TwoMtuPlus(n) => 2 * mtu0 as u64 + n as u64,
+            Iw::TenMtu => 10 * mtu0 as u64,
+            Iw::Pow2(n) => 1u64 << n.clamp(18, 62),
+        }
+    }
+}
+
+/// `NewRenoConfig::loss_reduction_factor` values: the default first, then accepted extremes
+pub const LRF: [f32; 10] = [0.5, 0.7, 0.999, 1.0, 0.0, f32::MIN_POSITIVE, 2.0, -1.0, f32::INFINITY, f32::NAN];
+
+#[derive(Debug, Clone, Serialize, Deserialize)]
+pub enum Op {
+    /// One transmit batch: packets of `frac/65536 * mtu + 1` bytes each, one `on_sent` call.
+    /// `announce == false` models packets tracked in flight without `on_sent` (MTU probes).
+    Send { space: u8, sizes: Vec<u16>, announce: bool },
+    /// Advance the virtual clock
+    Advance { ns: u64 },
+    /// One ACK frame for `space`
+    Ack {
+        space: u8,
+        picks: Vec<u16>,
+        app_limited: bool,
+        ack_delay_us: u32,
+        /// None: the connection's sample (now - send time of the largest newly acked packet)
+        rtt_free_us: Option<u32>,
+        /// `on_mtu_update(mtu)` immediately before the `k`-th `on_ack` (an acked MTU probe)
+        mtu_at: Option<(u8, u16)>,
+        end: bool,
+        /// None: in_flight = bytes outstanding; Some(f): that fraction of it (after migration only
+        /// packets of the new path are counted)
+        inflight: Option<u16>,
+    },
+    /// A stray `on_end_acks`
+    EndAcks { space: u8, app_limited: bool, inflight: Option<u16> },
+    Congestion {
+        space: u8,
+        ecn: bool,
+        persistent: bool,
+        /// lost subset of the outstanding packets (removed); lost_bytes is their total size
+        picks: Vec<u16>,
+        /// None: send time of the largest lost packet (loss) / of the largest acked packet (ECN);
+        /// Some(i): the send time of any packet sent so far
+        sent_sel: Option<u16>,
+        /// Some(f): lost_bytes = that fraction of the bytes outstanding before the event (loss only;
+        /// ECN events always carry lost_bytes = 0, as documented on the trait)
+        bytes_frac: Option<u16>,
+    },
+    Spurious,
+    Mtu(u16),
+    CloneBox,
+    /// Packets abandoned without telling the controller (packet-number space discarded)
+    Forget { picks: Vec<u16> },
+}
+
+#[derive(Debug, Clone, Serialize, Deserialize)]
+pub struct CcHist {
+    pub kind: Kind,
+    pub mtu0: u16,
+    pub iw: Iw,
+    /// index into `LRF` (NewReno only)
+    pub lrf: u8,
+    pub initial_rtt_us: u32,
+    pub ops: Vec<Op>,
+}
+
+#[derive(Debug, Clone, Serialize, Deserialize)]
+pub struct InitCase {
+    pub kind: Kind,
+    pub mtu0: u16,
+}
+
+// ---------------------------------------------------------------------------------------------
+// Strategies
+// ---------------------------------------------------------------------------------------------
+
+fn arb_mtu() -> impl Strategy<Value = u16> {
+    prop_oneof![
+        4 => MIN_MTU..=1500u16,
+        3 => MIN_MTU..=9000u16,
+        3 => MIN_MTU..=MAX_MTU,
+        1 => Just(MAX_MTU),
+    ]
+}
+
+fn arb_space() -> impl Strategy<Value = u8> {
+    prop_oneof![8 => Just(2u8), 1 => Just(0u8), 1 => Just(1u8)]
+}
+
+fn arb_advance() -> impl Strategy<Value = u64> {
+    prop_oneof![
+        2 => Just(0u64),
+        2 => 1u64..1_000,
+        3 => 1_000u64..1_000_000,
+        5 => 1_000_000u64..1_000_000_000,
+        2 => 1_000_000_000u64..30_000_000_000,
+    ]
+}
+
+fn arb_op() -> impl Strategy<Value = Op> {
+    let send = (arb_space(), prop::collection::vec(any::<u16>(), 1..=4), prop::bool::weighted(0.92))
+        .prop_map(|(space, sizes, announce)| Op::Send { space, sizes, announce });
+    let adv = arb_advance().prop_map(|ns| Op::Advance { ns });
+    let ack = (
+        arb_space(),
+        prop::collection::vec(any::<u16>(), 1..=12),
+        any::<bool>(),
+        prop_oneof![3 => Just(0u32), 3 => 0u32..30_000, 1 => 0u32..20_000_000],
+        prop::option::weighted(0.1, prop_oneof![1 => Just(0u32), 3 => 0u32..2_000_000, 1 => 0u32..60_000_000]),
+        prop::option::weighted(0.15, (0u8..4, arb_mtu())),
+        prop::bool::weighted(0.95),
+        prop::option::weighted(0.15, any::<u16>()),
+    )
+        .prop_map(|(space, picks, app_limited, ack_delay_us, rtt_free_us, mtu_at, end, inflight)| Op::Ack {
+            space,
+            picks,
+            app_limited,
+            ack_delay_us,
+            rtt_free_us,
+            mtu_at,
+            end,
+            inflight,
+        });
+    let endacks = (arb_space(), any::<bool>(), prop::option::weighted(0.3, any::<u16>()))
+        .prop_map(|(space, app_limited, inflight)| Op::EndAcks { space, app_limited, inflight });
+    let cong = (
+        arb_space(),
+        prop::bool::weighted(0.25),
+        prop::bool::weighted(0.3),
+        prop::collection::vec(any::<u16>(), 0..=6),
+        prop::option::weighted(0.3, any::<u16>()),
+        prop::option::weighted(0.15, any::<u16>()),
+    )
+        .prop_map(|(space, ecn, persistent, picks, sent_sel, bytes_frac)| Op::Congestion {
+            space,
+            ecn,
+            persistent,
+            picks,
+            sent_sel,
+            bytes_frac,
+        });
+    let forget = prop::collection::vec(any::<u16>(), 1..=6).prop_map(|picks| Op::Forget { picks });
+    prop_oneof![
+        30 => send,
+        16 => adv,
+        26 => ack,
+        2 => endacks,
+        10 => cong,
+        3 => Just(Op::Spurious),
+        8 => arb_mtu().prop_map(Op::Mtu),
+        2 => Just(Op::CloneBox),
+        1 => forget,
+    ]
+}
+
+fn arb_iw() -> impl Strategy<Value = Iw> {
+    prop_oneof![
+        6 => Just(Iw::Default),
+        2 => Just(Iw::TwoMtu),
+        1 => (0u16..=3000).prop_map(Iw::TwoMtuPlus),
+        1 => Just(Iw::TenMtu),
+        2 => (18u8..=62).prop_map(Iw::Pow2),
+    ]
+}
+
+/// Histories of the main sub-check. Construction MTU: for the default initial window of Cubic and
+/// NewReno only [1200, 6000] (see `run_init`), otherwise [1200, 65527] with the initial window
+/// raised to at least two datagrams.
+pub fn arb_hist(max_ops: usize) -> impl Strategy<Value = CcHist> {
+    (
+        prop_oneof![Just(Kind::Cubic), Just(Kind::NewReno), Just(Kind::Bbr)],
+        arb_iw(),
+        prop_oneof![6 => Just(0u8), 4 => 0u8..LRF.len() as u8],
+        prop_oneof![
+            5 => Just(333_000u32),
+            1 => Just(0u32),
+            2 => 1u32..1_000,
+            3 => 1_000u32..1_000_000,
+            1 => 1_000_000u32..20_000_000,
+        ],
+    )
+        .prop_flat_map(move |(kind, iw, lrf, initial_rtt_us)| {
+            // every construction MTU for which the chosen initial window is inside the domain
+            let hi = match iw {
+                Iw::Default => (kind.default_iw() / 2).min(MAX_MTU as u64) as u16,
+                Iw::Pow2(n) => ((1u64 << n.clamp(18, 62)) / 2).min(MAX_MTU as u64) as u16,
+                _ => MAX_MTU,
+            };
+            let mtu0 = prop_oneof![
+                4 => MIN_MTU..=1500u16.min(hi),
+                3 => MIN_MTU..=9000u16.min(hi),
+                3 => MIN_MTU..=hi,
+            ];
+            (mtu0, prop::collection::vec(arb_op(), 1..=max_ops))
+                .prop_map(move |(mtu0, ops)| CcHist { kind, mtu0, iw, lrf, initial_rtt_us, ops })
+        })
+}
+
+// ---------------------------------------------------------------------------------------------
+// Executor
+// ---------------------------------------------------------------------------------------------
+
+fn base() -> Instant {
+    static BASE: OnceLock<Instant> = OnceLock::new();
+    *BASE.get_or_init(Instant::now)
+}
+
+fn at(ns: u64) -> Instant {
+    base() + Duration::from_nanos(ns)
+}
+
+pub fn build(kind: Kind, iw: Iw, lrf: u8, mtu0: u16, now: Instant) -> Box<dyn Controller> {
+    let w0 = iw.value(kind, mtu0);
+    match kind {
+        Kind::Cubic => {
+            let mut c = CubicConfig::default();
+            if iw != Iw::Default {
+                c.initial_window(w0);
+            }
+            Arc::new(c).build(now, mtu0)
+        }
+        Kind::NewReno => {
+            let mut c = NewRenoConfig::default();
+            if iw != Iw::Default {
+                c.initial_window(w0);
+            }
+            let f = LRF[(lrf as usize).min(LRF.len() - 1)];
+            if lrf != 0 {
+                c.loss_reduction_factor(f);
+            }
+            Arc::new(c).build(now, mtu0)
+        }
+        Kind::Bbr => {
+            let mut c = BbrConfig::default();
+            if iw != Iw::Default {
+                c.initial_window(w0);
+            }
+            Arc::new(c).build(now, mtu0)
+        }
+    }
+}
+
+#[derive(Debug, Clone, Copy)]
+struct Pkt {
+    space: u8,
+    pn: u64,
+    size: u64,
+    sent_ns: u64,
+}
+
+fn pick(p: u16, len: usize) -> usize {
+    // monotone in `p` so that shrinking `p` moves towards index 0
+    (p as usize * len) >> 16
+}
+
+struct Run<'a> {
+    v: &'a CcHist,
+    cc: Box<dyn Controller>,
+    mtu: u16,
+    w0: u64,
+    calls: u64,
+    /// an `on_congestion_event` with lost_bytes > 0 has been delivered (part of the signature, so
+    /// that a known finding which needs loss recovery does not mask failures without any loss)
+    loss_seen: bool,
+    min_ratio_x100: u64,
+    trace: Vec<String>,
+    step: &'a Cell<usize>,
+    what: &'a Cell<&'static str>,
+    /// Asked with the signature of a window violation: true = a listed known finding; the history
+    /// then continues (the violation is not fatal to the controller) instead of ending there.
+    tolerate: &'a dyn Fn(&str) -> bool,
+    /// window() has been below the floor since a tolerated violation (not reported again)
+    episode: bool,
+    tolerated: u64,
+}
+
+fn quinn_panic(p: PanicInfo, ctx: String) -> CaseOut {
+    // Only quinn code (and what it calls) runs inside the guarded sections, so every panic caught
+    // there is attributed to the code under test, wherever the panic site happens to be.
+    if p.in_quinn() {
+        let mut c = panic_to_case(p, true);
+        if let Verdict::Fail { msg, .. } = &mut c.verdict {
+            msg.push('\n');
+            msg.push_str(&ctx);
+        }
+        c
+    } else {
+        let f = p.file.rsplit('/').take(3).collect::<Vec<_>>().into_iter().rev().collect::<Vec<_>>().join("/");
+        CaseOut::fail(format!("panic@{}:{}", f, p.line), format!("panic below a controller call at {}:{}: {}\n{}", p.file, p.line, p.msg, ctx))
+    }
+}
+
+impl<'a> Run<'a> {
+    fn ctx(&self) -> String {
+        let n = self.trace.len();
+        let tail = self.trace[n.saturating_sub(40)..].join("\n  ");
+        format!(
+            "controller={} ctor_mtu={} iw={:?} (={}) lrf={} initial_rtt_us={} current_mtu={}\nlast calls:\n  {}",
+            self.v.kind.name(),
+            self.v.mtu0,
+            self.v.iw,
+            self.w0,
+            if self.v.kind == Kind::NewReno { format!("{}", LRF[(self.v.lrf as usize).min(LRF.len() - 1)]) } else { "-".into() },
+            self.v.initial_rtt_us,
+            self.mtu,
+            tail
+        )
+    }
+
+    /// The oracle, evaluated after construction and after every call
+    fn check(&mut self, call: &'static str) -> Result<(), CaseOut> {
+        self.calls += 1;
+        self.what.set("window/clone_box/initial_window");
+        let (w, cw, iw) = match catch(|| {
+            let w = self.cc.window();
+            let c = self.cc.clone_box();
+            (w, c.window(), self.cc.initial_window())
+        }) {
+            Ok(x) => x,
+            Err(p) => return Err(quinn_panic(p, self.ctx())),
+        };
+        if let Some(l) = self.trace.last_mut() {
+            l.push_str(&format!(" -> window={w}"));
+        }
+        let floor = 2 * self.mtu as u64;
+        if w < floor {
+            if !self.episode {
+                let sig = format!("c12/window-below-2mtu/{}/{}/{}", self.v.kind.name(), call, if self.loss_seen { "after-loss" } else { "no-loss" });
+                if !(self.tolerate)(&sig) {
+                    return Err(CaseOut::fail(sig, format!("after {call}: window() = {w} < 2 * {} = {floor}\n{}", self.mtu, self.ctx())));
+                }
+                self.episode = true;
+                self.tolerated += 1;
+            }
+        } else {
+            self.episode = false;
+        }
+        if cw != w {
+            return Err(CaseOut::fail(
+                format!("c12/clone-window-mismatch/{}", self.v.kind.name()),
+                format!("after {call}: clone_box().window() = {cw} but window() = {w}\n{}", self.ctx()),
+            ));
+        }
+        if iw != self.w0 {
+            return Err(CaseOut::fail(
+                format!("c12/initial-window-changed/{}", self.v.kind.name()),
+                format!("after {call}: initial_window() = {iw}, configured {}\n{}", self.w0, self.ctx()),
+            ));
+        }
+        if !self.episode {
+            self.min_ratio_x100 = self.min_ratio_x100.min(w.saturating_mul(100) / floor);
+        }
+        Ok(())
+    }
+
+    fn call(&mut self, name: &'static str, desc: String, f: impl FnOnce(&mut dyn Controller)) -> Result<(), CaseOut> {
+        self.trace.push(format!("#{} {}", self.step.get(), desc));
+        self.what.set(name);
+        let cc = &mut self.cc;
+        if let Err(p) = catch(|| f(cc.as_mut())) {
+            return Err(quinn_panic(p, self.ctx()));
+        }
+        self.check(name)
+    }
+}
+
+/// Replay entry point: every violation is reported
+pub fn case_hist(v: &CcHist) -> CaseOut {
+    case_hist_tolerating(v, &|_| false)
+}
+
+/// `tolerate(sig)` decides whether a window violation is a listed known finding (see `Run::tolerate`)
+pub fn case_hist_tolerating(v: &CcHist, tolerate: &dyn Fn(&str) -> bool) -> CaseOut {
+    let step = Cell::new(0usize);
+    let what = Cell::new("build");
+    let r = catch(|| exec(v, &step, &what, tolerate));
+    match r {
+        Ok(o) => o,
+        // a panic outside the guarded sections is a harness bug
+        Err(p) => CaseOut::inconclusive(format!("harness panic at {}:{} (op #{}, {}): {}", p.file, p.line, step.get(), what.get(), p.msg)),
+    }
+}
+
+fn exec(v: &CcHist, step: &Cell<usize>, what: &Cell<&'static str>, tolerate: &dyn Fn(&str) -> bool) -> CaseOut {
+    let mtu0 = v.mtu0.clamp(MIN_MTU, MAX_MTU);
+    let w0 = v.iw.value(v.kind, mtu0);
+    if w0 < 2 * mtu0 as u64 {
+        // kept out of this sub-check by construction (see `run_init`); only reachable through a
+        // hand-edited replay file
+        return CaseOut::discard("configured initial window below two datagrams: covered by c12b-init");
+    }
+    let cc = match catch(|| build(v.kind, v.iw, v.lrf, mtu0, at(0))) {
+        Ok(c) => c,
+        Err(p) => return quinn_panic(p, format!("in build() kind={:?} mtu={mtu0}", v.kind)),
+    };
+    let mut rtt = RttEstimator::verif_new(Duration::from_micros(v.initial_rtt_us as u64));
+    let mut r = Run { v, cc, mtu: mtu0, w0, calls: 0, loss_seen: false, min_ratio_x100: u64::MAX, trace: vec![format!("build(mtu={mtu0})")], step, what, tolerate, episode: false, tolerated: 0 };
+    if let Err(c) = r.check("build") {
+        return c;
+    }
+
+    let mut now: u64 = 0;
+    let mut out: Vec<Pkt> = vec![];
+    let mut next_pn = [0u64; 3];
+    let mut largest_acked: [Option<u64>; 3] = [None; 3];
+    let mut largest_acked_sent = [0u64; 3];
+    let mut all_sent: Vec<u64> = vec![];
+    let mut n_cong = 0u32;
+    let mut n_mtu_change = 0u32;
+    let mut lab: BTreeMap<&'static str, ()> = BTreeMap::new();
+
+    macro_rules! tr {
+        ($e:expr) => {
+            if let Err(c) = $e {
+                return c;
+            }
+        };
+    }
+    let in_flight = |out: &Vec<Pkt>, f: Option<u16>| -> u64 {
+        let total: u64 = out.iter().map(|p| p.size).sum();
+        match f {
+            None => total,
+            Some(f) => ((total as u128 * f as u128) >> 16) as u64,
+        }
+    };
+
+    for (i, op) in v.ops.iter().enumerate() {
+        step.set(i);
+        match op {
+            Op::Send { space, sizes, announce } => {
+                let s = (*space).min(2) as usize;
+                let mut total = 0u64;
+                let mut last = 0u64;
+                for f in sizes {
+                    let size = 1 + ((*f as u64 * r.mtu as u64) >> 16);
+                    let pn = next_pn[s];
+                    next_pn[s] += 1;
+                    out.push(Pkt { space: s as u8, pn, size, sent_ns: now });
+                    all_sent.push(now);
+                    total += size;
+                    last = pn;
+                }
+                if *announce {
+                    let t = at(now);
+                    tr!(r.call("on_sent", format!("t={now}ns on_sent(bytes={total}, last_pn={last}) space={s}"), |c| c.on_sent(t, total, last)));
+                } else {
+                    lab.insert("tracked-without-on_sent", ());
+                }
+            }
+            Op::Advance { ns } => {
+                now = now.saturating_add(*ns).min(1 << 60);
+            }
+            Op::Ack { space, picks, app_limited, ack_delay_us, rtt_free_us, mtu_at, end, inflight } => {
+                let s = (*space).min(2);
+                let mut cand: Vec<usize> = (0..out.len()).filter(|&j| out[j].space == s).collect();
+                if cand.is_empty() {
+                    continue;
+                }
+                let mut acked: Vec<Pkt> = vec![];
+                let mut gone: Vec<usize> = vec![];
+                for p in picks {
+                    if cand.is_empty() {
+                        break;
+                    }
+                    let j = cand.remove(pick(*p, cand.len()));
+                    acked.push(out[j]);
+                    gone.push(j);
+                }
+                gone.sort_unstable();
+                for j in gone.into_iter().rev() {
+                    out.remove(j);
+                }
+                let t = at(now);
+                let mut new_largest: Option<Pkt> = None;
+                for (k, p) in acked.iter().enumerate() {
+                    if let Some((at_k, m)) = mtu_at {
+                        if *at_k as usize == k {
+                            let m = (*m).clamp(MIN_MTU, MAX_MTU);
+                            if m != r.mtu {
+                                n_mtu_change += 1;
+                                lab.insert(if m > r.mtu { "mtu-up" } else { "mtu-down" }, ());
+                            }
+                            lab.insert("mtu-update-inside-ack", ());
+                            r.mtu = m;
+                            tr!(r.call("on_mtu_update", format!("t={now}ns on_mtu_update({m}) [inside ack]"), |c| c.on_mtu_update(m)));
+                        }
+                    }
+                    let sent = at(p.sent_ns);
+                    let (bytes, al) = (p.size, *app_limited);
+                    let rt = &rtt;
+                    tr!(r.call(
+                        "on_ack",
+                        format!("t={now}ns on_ack(sent={}ns, bytes={bytes}, app_limited={al}, rtt={:?}/min {:?}) pn={}", p.sent_ns, rt.get(), rt.min(), p.pn),
+                        |c| c.on_ack(t, sent, bytes, al, rt)
+                    ));
+                    if largest_acked[s as usize].is_none_or(|l| p.pn > l) && new_largest.is_none_or(|n| p.pn > n.pn) {
+                        new_largest = Some(*p);
+                    }
+                }
+                if let Some(n) = new_largest {
+                    largest_acked[s as usize] = Some(n.pn);
+                    largest_acked_sent[s as usize] = n.sent_ns;
+                }
+                if *end {
+                    let fl = in_flight(&out, *inflight);
+                    let (al, la) = (*app_limited, largest_acked[s as usize]);
+                    tr!(r.call("on_end_acks", format!("t={now}ns on_end_acks(in_flight={fl}, app_limited={al}, largest_acked={la:?})"), |c| c
+                        .on_end_acks(t, fl, al, la)));
+                }
+                if let Some(n) = new_largest {
+                    let sample = match rtt_free_us {
+                        Some(us) => {
+                            lab.insert("free-rtt-sample", ());
+                            Duration::from_micros(*us as u64)
+                        }
+                        None => Duration::from_nanos(now - n.sent_ns),
+                    };
+                    let delay = Duration::from_micros(*ack_delay_us as u64);
+                    what.set("RttEstimator::update");
+                    if let Err(p) = catch(|| rtt.verif_update(delay, sample)) {
+                        return quinn_panic(p, r.ctx());
+                    }
+                }
+                if *app_limited {
+                    lab.insert("app-limited-ack", ());
+                }
+            }
+            Op::EndAcks { space, app_limited, inflight } => {
+                let s = (*space).min(2) as usize;
+                let t = at(now);
+                let fl = in_flight(&out, *inflight);
+                let (al, la) = (*app_limited, largest_acked[s]);
+                tr!(r.call("on_end_acks", format!("t={now}ns on_end_acks(in_flight={fl}, app_limited={al}, largest_acked={la:?}) [stray]"), |c| c
+                    .on_end_acks(t, fl, al, la)));
+            }
+            Op::Congestion { space, ecn, persistent, picks, sent_sel, bytes_frac } => {
+                let s = (*space).min(2);
+                let before: u64 = out.iter().map(|p| p.size).sum();
+                let mut lost_bytes = 0u64;
+                let mut largest_lost: Option<Pkt> = None;
+                if !*ecn {
+                    let mut cand: Vec<usize> = (0..out.len()).filter(|&j| out[j].space == s).collect();
+                    let mut gone: Vec<usize> = vec![];
+                    for p in picks {
+                        if cand.is_empty() {
+                            break;
+                        }
+                        let j = cand.remove(pick(*p, cand.len()));
+                        lost_bytes += out[j].size;
+                        if largest_lost.is_none_or(|l| out[j].pn > l.pn) {
+                            largest_lost = Some(out[j]);
+                        }
+                        gone.push(j);
+                    }
+                    gone.sort_unstable();
+                    for j in gone.into_iter().rev() {
+                        out.remove(j);
+                    }
+                }
+                if let (Some(f), false) = (bytes_frac, *ecn) {
+                    lost_bytes = ((before as u128 * *f as u128) >> 16) as u64;
+                }
+                let sent_ns = match sent_sel {
+                    Some(i) if !all_sent.is_empty() => all_sent[pick(*i, all_sent.len())],
+                    _ => match (ecn, largest_lost) {
+                        (false, Some(l)) => l.sent_ns,
+                        _ => largest_acked_sent[s as usize],
+                    },
+                };
+                let (t, sent, pc, e) = (at(now), at(sent_ns), *persistent && !*ecn, *ecn);
+                n_cong += 1;
+                lab.insert(if e { "ecn-event" } else { "loss-event" }, ());
+                if pc {
+                    lab.insert("persistent-congestion", ());
+                }
+                r.loss_seen |= lost_bytes > 0;
+                tr!(r.call(
+                    "on_congestion_event",
+                    format!("t={now}ns on_congestion_event(sent={sent_ns}ns, persistent={pc}, ecn={e}, lost_bytes={lost_bytes})"),
+                    |c| c.on_congestion_event(t, sent, pc, e, lost_bytes)
+                ));
+            }
+            Op::Spurious => {
+                lab.insert("spurious", ());
+                tr!(r.call("on_spurious_congestion_event", format!("t={now}ns on_spurious_congestion_event()"), |c| c.on_spurious_congestion_event()));
+            }
+            Op::Mtu(m) => {
+                let m = (*m).clamp(MIN_MTU, MAX_MTU);
+                if m != r.mtu {
+                    n_mtu_change += 1;
+                    lab.insert(if m > r.mtu { "mtu-up" } else { "mtu-down" }, ());
+                }
+                r.mtu = m;
+                tr!(r.call("on_mtu_update", format!("t={now}ns on_mtu_update({m})"), |c| c.on_mtu_update(m)));
+            }
+            Op::CloneBox => {
+                lab.insert("clone_box-continue", ());
+                what.set("clone_box");
+                let c = match catch(|| r.cc.clone_box()) {
+                    Ok(c) => c,
+                    Err(p) => return quinn_panic(p, r.ctx()),
+                };
+                r.cc = c;
+                r.trace.push(format!("#{i} t={now}ns clone_box() [continue with the clone]"));
+                tr!(r.check("clone_box"));
+            }
+            Op::Forget { picks } => {
+                for p in picks {
+                    if out.is_empty() {
+                        break;
+                    }
+                    out.remove(pick(*p, out.len()));
+                }
+                lab.insert("forget", ());
+            }
+        }
+    }
+
+    lab.insert(v.kind.name(), ());
+    if v.mtu0 > MAX_DEFAULT_CTOR_MTU {
+        lab.insert("ctor-mtu>6000", ());
+    }
+    if v.iw != Iw::Default {
+        lab.insert("iw-configured", ());
+    }
+    if v.kind == Kind::NewReno && v.lrf != 0 {
+        lab.insert("lrf-configured", ());
+    }
+    if r.tolerated > 0 {
+        lab.insert("continued-past-known-finding", ());
+    }
+    let nontrivial = n_cong >= 1 && n_mtu_change >= 1 && r.calls >= 20;
+    CaseOut {
+        verdict: Verdict::Pass,
+        labels: lab.into_keys().collect(),
+        nontrivial,
+        summary: Some(json!({
+            "controller": v.kind.name(),
+            "ctor_mtu": v.mtu0,
+            "initial_window": w0,
+            "ops": v.ops.len(),
+            "checked_calls": r.calls,
+            "congestion_events": n_cong,
+            "mtu_changes": n_mtu_change,
+            "final_mtu": r.mtu,
+            "min_window_over_2mtu_x100": r.min_ratio_x100,
+        })),
+    }
+}
+
+/// Replay / evaluation of one default-config construction
+pub fn case_init(v: &InitCase) -> CaseOut {
+    let mtu0 = v.mtu0.clamp(MIN_MTU, MAX_MTU);
+    let r = catch(|| {
+        let c = build(v.kind, Iw::Default, 0, mtu0, at(0));
+        (c.window(), c.initial_window())
+    });
+    match r {
+        Err(p) => quinn_panic(p, format!("in build() kind={:?} mtu={mtu0}", v.kind)),
+        Ok((w, iw)) => {
+            if w < 2 * mtu0 as u64 {
+                CaseOut::fail(
+                    "c12/initial-window-below-2mtu",
+                    format!(
+                        "{} built with the default config at current_mtu={mtu0}: window() = {w} (initial_window() = {iw}) < 2 * {mtu0} = {} before any event",
+                        v.kind.name(),
+                        2 * mtu0 as u64
+                    ),
+                )
+            } else {
+                CaseOut::pass()
+            }
+        }
+    }
+}
+
+/// Enumerates every construction MTU for the three default configs. Everything in [1200, 6000] is
+/// asserted under the main signature family; (6000, 65527] is reported once per controller under
+/// `c12/initial-window-below-2mtu` with the smallest failing MTU.
+pub fn run_init(report: &Report) {
+    let name = "c12b-init";
+    if !report.wants(name) {
+        return;
+    }
+    let t0 = Instant::now();
+    let mut classes: BTreeMap<String, u64> = BTreeMap::new();
+    let mut evals = 0u64;
+    let mut samples = vec![];
+    for kind in [Kind::Cubic, Kind::NewReno, Kind::Bbr] {
+        let mut first_bad: Option<(u16, String)> = None;
+        let mut bad = 0u64;
+        for mtu0 in MIN_MTU..=MAX_MTU {
+            evals += 1;
+            let out = case_init(&InitCase { kind, mtu0 });
+            if let Verdict::Fail { sig, msg } = out.verdict {
+                if mtu0 <= MAX_DEFAULT_CTOR_MTU || sig != "c12/initial-window-below-2mtu" {
+                    // inside the asserted domain, or a panic: a plain violation
+                    report.fail_direct(name, &sig, msg, serde_json::to_value(InitCase { kind, mtu0 }).unwrap());
+                    break;
+                }
+                bad += 1;
+                if first_bad.is_none() {
+                    first_bad = Some((mtu0, msg));
+                }
+            }
+        }
+        *classes.entry(format!("{}:ctor-mtu-with-window-below-2mtu", kind.name())).or_insert(0) += bad;
+        samples.push(json!({"controller": kind.name(), "ctor_mtus_with_initial_window_below_2mtu": bad, "smallest": first_bad.as_ref().map(|x| x.0)}));
+        if let Some((mtu0, msg)) = first_bad {
+            report.note(format!(
+                "[{name}] {}: default-config window() < 2*mtu at construction for {bad} construction MTUs, smallest {mtu0}",
+                kind.name()
+            ));
+            report.fail_direct(
+                name,
+                "c12/initial-window-below-2mtu",
+                format!("{msg}\n(holds for all {bad} construction MTUs in {mtu0}..={MAX_MTU}; [1200, 6000] is fine)"),
+                serde_json::to_value(InitCase { kind, mtu0 }).unwrap(),
+            );
+        }
+    }
+    report.add_sub(SubStats {
+        name: name.into(),
+        rule: "every construction MTU 1200..=65527 x {Cubic, NewReno, Bbr} default config: window() >= 2*mtu right after build(); (6000, 65527] reported under c12/initial-window-below-2mtu".into(),
+        evaluations: evals,
+        distinct_nontrivial: evals,
+        exhaustive: true,
+        classes,
+        samples,
+        wall_s: t0.elapsed().as_secs_f64(),
+        ..Default::default()
+    });
+}
+
+pub const RULE: &str = "proptest-generated connection-shaped call histories (<= 200 ops: transmit batches, clock advances incl. 0 and sub-microsecond, ACKs of any outstanding subset in any order with mid-ACK MTU raise, end_acks, loss/ECN/persistent congestion events, spurious events, MTU updates in [1200, 65527] up and down, clone_box continue, abandoned packets) x {Cubic, NewReno, Bbr} x initial_window/loss_reduction_factor knobs x construction MTU; oracle after build and after every call: window() >= 2*current MTU, clone_box().window() == window(), initial_window() constant, no panic (overflow included); non-trivial = >= 1 congestion event and >= 1 MTU change and >= 20 checked calls";
+
+pub fn run_sub(report: &Report) {
+    report.assume("C12b: controller histories are connection-shaped (sizes <= MTU at send time, monotone clock, sent times of real packets); initial_window knob >= 2 * construction MTU");
+    report.assume("C12b: default-config Cubic/NewReno construction MTUs above 6000 are reported separately (c12/initial-window-below-2mtu), not asserted in the history sub-check");
+    run_init(report);
+    // Window violations that are listed known findings are counted and the history continues, so
+    // that a known defect does not hide what lies behind it (panics still end the history).
+    let tolerate = |sig: &str| {
+        let known = report.is_known(sig);
+        if known {
+            *report.known_hits.lock().unwrap().entry(sig.to_string()).or_insert(0) += 1;
+        }
+        known
+    };
+    run_prop(report, "c12b", RULE, || arb_hist(200), report.cases(200_000, 20_000_000), |v| case_hist_tolerating(v, &tolerate));
+}
